@@ -72,7 +72,8 @@ MOD = "mcverif.checks.c16"
 
 BOUNDS = {
     "quick": {"depth": 5, "heavy": 1, "ro_rings": 2, "ro_kinds": 1},
-    "thorough": {"depth": 7, "heavy": 3, "ro_rings": 3, "ro_kinds": 4},
+    # thorough: the whole scenario family at wide_depth, the quick family at depth-1, six of it at depth
+    "thorough": {"depth": 7, "wide_depth": 5, "heavy": 2, "ro_rings": 3, "ro_kinds": 4},
 }
 MAXNEST = 3
 
@@ -760,11 +761,15 @@ def expand(item):
     ops = enabled_ops(s, hist)
     fl = None
     ncopies = 0
-    if not viols and out == "ok":
+    _LAST["full"] = None
+    after_exit = bool(hist) and hist[-1][0] == "exit"
+    # derived quantities are observed where the oracles use them: with all scopes closed (these are
+    # the states that merge with untouched ones: differential oracle) and right after an exit
+    if not viols and out == "ok" and (not s.stack or after_exit):
         f1 = full(s.r)
         _LAST["full"] = f1
         fl = None if s.tainted else observe.digest(f1)
-        if not s.tainted and hist and hist[-1][0] == "exit" and "__raises__" not in f1:
+        if not s.tainted and after_exit and "__raises__" not in f1:
             s.r.clearCache()
             for c in s.r.iterChildren(deep=True):
                 m = getattr(c, "material", None)
@@ -775,9 +780,10 @@ def expand(item):
             if d:
                 fl = None  # one mechanism, one key: no differential report on top of this
                 viols.append(core.viol("c16/exit-stale-cache", "history %s: after the exit, clearing every cache changes observable quantities (a stale value survived the scope): %s" % (hist, d[:3]), case))
+    if not viols and out == "ok":
         # the root state is copied in a pass of its own (run()): a copy defect present in every
         # state must not stop the search at depth 0
-        if not viols and (hist or item.get("rootcopies")):
+        if hist or item.get("rootcopies"):
             if item.get("rootcopies"):
                 case = dict(case, rootcopies=True)
             v2, ncopies = copy_checks(s, case, len(hist) <= init.get("heavy", 2), rw)
@@ -969,52 +975,68 @@ def ro_eval(case):
 # scenarios
 
 
+def _quick_family():
+    """(enters, muts) of the quick tier: every keep-set pair occurs, every mutation operation occurs."""
+    out = []
+    pairs = [("R", "R"), ("R", "K"), ("K", "A"), ("A", "B"), ("B", "C"), ("C", "C"), ("B", "R"), ("R", "C"), ("B", "B")]
+    keeps = [(0, 0), (1, 2), (2, 1), (0, 1), (2, 0), (1, 1), (2, 2), (0, 2), (1, 0)]
+    for (a, c), (ka, kc) in zip(pairs, keeps):
+        out.append(([[a, ka], [c, kc]], ["P", "D"]))
+    # grids/heights/caches do not depend on the keep-set (except height, kept in set 2)
+    for a, c, ka, kc in (("R", "K", 0, 0), ("K", "A", 0, 2), ("A", "B", 2, 0), ("B", "B", 0, 0)):
+        out.append(([[a, ka], [c, kc]], ["G", "H", "Q"]))
+    out.append(([["B", 0], ["C", 0]], ["D", "Q"]))
+    out.append(([["A", 2], ["B", 2]], ["S", "L"]))
+    out.append(([["R", 1], ["B", 0]], ["L", "Q"]))
+    return out
+
+
+# scenarios of the quick family explored two levels deeper / one level deeper in the thorough tier
+_DEEPEST = (0, 1, 3, 9, 13, 14)
+
+
 def scenarios(ctx):
     """Each scenario is the ``init`` of one BFS: scope objects with keep-sets + mutation ops."""
     b = BOUNDS[ctx.tier]
-    seed = ctx.seed
-    base = {"spec": "r2", "seed": seed, "heavy": b["heavy"]}
+    base = {"spec": "r2", "seed": ctx.seed, "heavy": b["heavy"]}
     out = []
+    have = {}
 
-    def sc(enters, muts, **kw):
+    def sc(enters, muts, depth):
+        k = repr((enters, muts))
+        if k in have:  # keep the deeper bound
+            have[k]["depth"] = max(have[k]["depth"], depth)
+            return
         d = dict(base)
-        d.update(enters=enters, muts=muts)
-        d.update(kw)
+        d.update(enters=enters, muts=muts, depth=depth)
+        have[k] = d
         out.append(d)
 
-    pairs = [("R", "R"), ("R", "K"), ("K", "A"), ("A", "B"), ("B", "C"), ("C", "C"), ("B", "R"), ("R", "C"), ("B", "B")]
-    if not ctx.quick:
-        pairs.append(("A", "K"))
+    qf = _quick_family()
     if ctx.quick:
-        # keep-set pairs rotate over the object pairs so that each of the 9 combinations occurs
-        keeps = [(0, 0), (1, 2), (2, 1), (0, 1), (2, 0), (1, 1), (2, 2), (0, 2), (1, 0), (2, 1)]
-        for (a, c), (ka, kc) in zip(pairs, keeps):
-            sc([[a, ka], [c, kc]], ["P", "D"])
-        # grids/heights/caches do not depend on the keep-set (except height, kept in set 2)
-        for a, c, ka, kc in (("R", "K", 0, 0), ("K", "A", 0, 2), ("A", "B", 2, 0), ("B", "B", 0, 0)):
-            sc([[a, ka], [c, kc]], ["G", "H", "Q"])
-        sc([["B", 0], ["C", 0]], ["D", "Q"])
-        sc([["A", 2], ["B", 2]], ["S", "L"], maxnest=2)
-        sc([["R", 1], ["B", 0]], ["L", "Q"], maxnest=2)
-    else:
-        keeps = [(0, 0), (1, 2), (2, 1), (0, 1), (2, 0), (1, 1), (2, 2), (0, 2), (1, 0), (2, 1)]
-        d1 = b["depth"] - 1
-        for (a, c), kk in zip(pairs, keeps):
-            for ka in range(3):
-                for kc in range(3):
-                    sc([[a, ka], [c, kc]], ["P", "D"], depth=b["depth"] if (ka, kc) == kk else d1)
-        for j, (a, c) in enumerate(pairs):
-            for ka, kc in ((0, 0), (2, 2), (0, 2)):
-                sc([[a, ka], [c, kc]], ["G", "H", "Q"], depth=b["depth"] if (ka, kc) == (0, 0) and j < 4 else d1)
-        for a, c in (("B", "C"), ("A", "B"), ("R", "C"), ("C", "C2")):
-            for ka, kc in ((0, 0), (1, 0)):
-                sc([[a, ka], [c, kc]], ["D", "Q"])
-        for tri in (("R", "A", "B"), ("K", "B", "C"), ("B", "B", "B"), ("C", "B", "R")):
-            for ks in ((0, 0, 0), (1, 2, 0), (2, 1, 2), (0, 2, 1)):
-                sc([[o, k] for o, k in zip(tri, ks)], ["P", "G"], depth=d1)
-        for ka, kc in ((2, 2), (0, 2), (2, 0), (1, 1)):
-            sc([["A", ka], ["B", kc]], ["S", "L"])
-            sc([["R", ka], ["B", kc]], ["L", "Q"])
+        for enters, muts in qf:
+            sc(enters, muts, b["depth"])
+        return out
+    for j, (enters, muts) in enumerate(qf):
+        sc(enters, muts, b["depth"] if j in _DEEPEST else b["depth"] - 1)
+    wide = b["wide_depth"]
+    pairs = [("R", "R"), ("R", "K"), ("K", "A"), ("A", "B"), ("B", "C"), ("C", "C"), ("B", "R"), ("R", "C"), ("B", "B"), ("A", "K")]
+    for a, c in pairs:
+        for ka in range(3):
+            for kc in range(3):
+                sc([[a, ka], [c, kc]], ["P", "D"], wide)
+    for a, c in pairs:
+        for ka, kc in ((0, 0), (2, 2)):
+            sc([[a, ka], [c, kc]], ["G", "H", "Q"], wide)
+    for a, c in (("B", "C"), ("A", "B"), ("R", "C"), ("C", "C2")):
+        for ka, kc in ((0, 0), (1, 0)):
+            sc([[a, ka], [c, kc]], ["D", "Q"], wide)
+    for tri in (("R", "A", "B"), ("K", "B", "C"), ("B", "B", "B"), ("C", "B", "R")):
+        for ks in ((0, 0, 0), (1, 2, 0)):
+            sc([[o, k] for o, k in zip(tri, ks)], ["P", "G"], wide)
+    for ka, kc in ((2, 2), (0, 2), (2, 0), (1, 1)):
+        sc([["A", ka], ["B", kc]], ["S", "L"], wide)
+        sc([["R", ka], ["B", kc]], ["L", "Q"], wide)
     return out
 
 
@@ -1071,7 +1093,7 @@ def run(ctx):
     ctx.coverage["readonly_spec"] = spec
     ctx.log("read-only: %d objects, %d assignments" % (nobj, nass))
     ctx.assumptions += [
-        "histories bounded: depth %d (thorough: one scenario per scope-object pair at that depth, the other keep-set combinations and the three-object scenarios one less), nesting <= %d; per scenario 2-3 scope objects with fixed keep-sets and 2-3 mutation operations (projection of the full alphabet); consecutive mutation operations are explored in one order only (they touch disjoint fields)" % (b["depth"], MAXNEST),
+        "histories bounded: depth %d (thorough: six scenarios at that depth, the other ten scenarios of the quick family one less, the wide family (all keep-set pairs for ten scope-object pairs, three-object scenarios) at depth 5), nesting <= %d; per scenario 2-3 scope objects with fixed keep-sets and 2-3 mutation operations (projection of the full alphabet); consecutive mutation operations are explored in one order only (they touch disjoint fields)" % (b["depth"], MAXNEST),
         "one generated third-core hex reactor (3 assemblies x 2 blocks, pin grid, linked dimensions); keep-sets: none / one scalar definition per class / scalar+array+dict+None+unset definitions per class",
         "core and reactor are deep-copied/pickled only in states reached by histories of length <= %d; component, block, assembly in every state" % b["heavy"],
         "class-level Parameter.assigned/_backup reset to the import-time state before every execution",
